@@ -267,6 +267,9 @@ class Evaluator:
                             if vd['k'] == 'VarDecl':
                                 p.env[vd['name']] = ('loopvar', vd['name'], p.env.get(vd['name']), rk)
                 lv = None
+            # give every loop STATEMENT its own identity: two loops over the same range are different phases
+            ids = self.__dict__.setdefault('_loopids', {})
+            rk = '%s#%d' % (rk, ids.setdefault(s.get('id'), len(ids) + 1))
             p.env['$loops'] = p.env.get('$loops', ()) + (rk,)
             if k != 'CXXForRangeStmt':
                 p.env['$merge'] = p.env.get('$merge', 0) + 1      # counting loops: if/else inside is joined, not forked
